@@ -301,5 +301,5 @@ harnesses! {
     #[kani::unwind(42)] fn c18_reparse_atomic() [T0 S] : "Q|atomic rule: same" { reparse_atomic() }
     #[kani::unwind(42)] fn c18_reparse_compound() [T0 S] : "Q|compound-atomic rule: same" { reparse_compound() }
     #[kani::unwind(42)] fn c18_reparse_non_atomic() [T0 S] : "Q|non-atomic rule: same" { reparse_non_atomic() }
-    #[kani::unwind(42)] fn c18_reparse_rep() [T0 S] : "T|bounded repetition with skipped items (Vec content): same" { reparse_rep() }
+    #[kani::unwind(42)] fn c18_reparse_rep() [T0 S] : "X|(no verdict within 3600 s: Vec content eq+hash) bounded repetition with skipped items (Vec content): same" { reparse_rep() }
 }
